@@ -1,6 +1,7 @@
 (* C04 — statements only. *)
 From Coq Require Import Reals List ZArith QArith Bool.
-From TFV Require Import Base.RBase Shape.LineShapes Rot.Wigner Amp.Dalitz3 Amp.Dalitz3_proofs Amp.Coupling Amp.Coupling_proofs.
+From TFV Require Import Base.RBase Shape.LineShapes Rot.Wigner Amp.Dalitz3 Amp.Dalitz3_proofs Amp.Coupling Amp.Coupling_proofs
+     Amp.Pipeline0 Amp.Pipeline0_proofs.
 Import ListNotations.
 Open Scope R_scope.
 
@@ -35,8 +36,15 @@ Theorem C04_density_invariant : forall (L : P4 -> P4),
 Proof. exact density3_invariant. Qed.
 Print Assumptions C04_density_invariant.
 
-(* FULL statement not yet proved: the generic helicity pipeline (L0-L8 of DESIGN.md) specialised to
-   spin-0 externals equals density3.  The pieces above (angular function, couplings, barrier and
-   line shape from C15) are its ingredients; the composition is tied to the code, not proved. *)
-Definition C04_pipeline_equals_closed_form_statement : Prop :=
-  forall J beta, (J <= 4)%nat -> dsmall (2 * Z.of_nat J) 0 0 beta = legendre J (cos beta).
+(* the GENERIC helicity pipeline (Amp/Chain.v: LS couplings as Clebsch-Gordan radicals times barrier factors, vertex = H * D*,
+   sum over the resonance helicity), specialised to a spin-0 parent and spin-0 final particles with a resonance of spin
+   J <= 4, IS the closed form: sign (-1)^J, unit normalisation of both couplings, q^J p^J B_J B_J, the propagator and
+   P_J(cos theta); the first vertex' angles drop out.  (The generic layers are tied to the code's vertices in this check
+   and in C01; the closed form is tied to the code's chain amplitudes and density.) *)
+Theorem C04_generic_pipeline_is_closed_form :
+  forall J (g1 g2 : C) q2 q02 p p0 d mR m0R g0R phi1 th1 phi2 th2,
+  (J <= 4)%nat -> 0 < p -> 0 < p0 ->
+  generic_chain0 J g1 g2 q2 q02 (p ^ 2) (p0 ^ 2) d (BWR mR m0R g0R p p0 J d) phi1 th1 phi2 th2
+  = res_amp_core (Cmul g1 g2) J q2 q02 p p0 m0R g0R d mR (cos th2).
+Proof. exact generic_pipeline_is_closed_form. Qed.
+Print Assumptions C04_generic_pipeline_is_closed_form.
